@@ -551,8 +551,8 @@ def load_findings(pid):
     if os.path.exists(p):
         for line in open(p):
             line = line.strip()
-            if not line or line.startswith('#'):
-                continue
+            if not line or line.startswith('#') or line.startswith('fixed:'):
+                continue      # 'fixed: property=<id> <commit> <what failed>' lines suppress nothing
             d = json.loads(line)
             if d.get('property') == pid:
                 out.append(d)
